@@ -10,7 +10,7 @@ spec/SqlShape (SqlShapeDefs, SqlShape, _Gen, _Trace).  Stages:
      logged permission lookups / SQLite EXPLAIN recorded and judged by the TLA+ contract SqlShape_Trace
   binding self-test (corrupted records must be rejected by the contract)
 """
-import collections, json, os, random, shutil, sqlite3, threading, time
+import collections, http.client, json, os, random, shutil, sqlite3, threading, time
 from concurrent.futures import ThreadPoolExecutor
 import vf, egosrv
 
@@ -128,7 +128,7 @@ def provision(srv, sd, ndsn, demands, allgrants):
     table-level grants = AllGrants minus the withheld one.  All through the real admin API."""
     profiles = [NOW] + demands
     dsns = []
-    atok = srv.logon(*ADMIN)        # bearer token: basic auth would pay a password hash per request
+    atok = logon(srv, *ADMIN)        # bearer token: basic auth would pay a password hash per request
     if not atok:
         raise vf.NoVerdict("admin logon failed")
     for k in range(ndsn):
@@ -137,7 +137,7 @@ def provision(srv, sd, ndsn, demands, allgrants):
         con = db_connect(path)
         con.executescript(FIXTURE)
         con.close()
-        r = srv.req("POST", "/dsns/", {"name": name, "provider": "sqlite", "database": path, "restricted": True}, token=atok)
+        r = areq(srv, "POST", "/dsns/", {"name": name, "provider": "sqlite", "database": path, "restricted": True}, token=atok)
         if r.status != 201:
             raise vf.NoVerdict("cannot create DSN: %r" % r)
         dsns.append((name, path))
@@ -146,7 +146,7 @@ def provision(srv, sd, ndsn, demands, allgrants):
         name, w = job
         user = uname(w)
         acts = ["+ego.dsn.read", "+ego.dsn.write"] + ([] if w["p"] == "schema" else ["+ego.dsn.admin"])
-        r = srv.req("POST", "/dsns/@permissions", {"dsn": name, "user": user, "actions": acts}, token=atok)
+        r = areq(srv, "POST", "/dsns/@permissions", {"dsn": name, "user": user, "actions": acts}, token=atok)
         if r.status != 200:
             raise vf.NoVerdict("DSN grant failed: %r" % r)
         bytable = collections.defaultdict(list)
@@ -154,7 +154,7 @@ def provision(srv, sd, ndsn, demands, allgrants):
             if g["p"] != "schema" and g != w:
                 bytable[g["t"]].append("+" + PERM2EGO[g["p"]])
         for t, perms in sorted(bytable.items()):
-            r = srv.req("PUT", "/dsns/%s/tables/%s/permissions?user=%s" % (name, t, user), sorted(perms), token=atok)
+            r = areq(srv, "PUT", "/dsns/%s/tables/%s/permissions?user=%s" % (name, t, user), sorted(perms), token=atok)
             if r.status != 200:
                 raise vf.NoVerdict("table grant failed: %r" % r)
 
@@ -163,11 +163,27 @@ def provision(srv, sd, ndsn, demands, allgrants):
             grant((n, w))
     tokens = {}
     for w in profiles:
-        tok = srv.logon(uname(w), "pw")
+        tok = logon(srv, uname(w), "pw")
         if not tok:
             raise vf.NoVerdict("logon failed for %s" % uname(w))
         tokens[uname(w)] = tok
     return dsns, tokens
+
+
+def logon(srv, user, pw):
+    """srv.logon with a generous timeout (the first login re-hashes the stored credential; slow on a loaded machine)."""
+    try:
+        r = srv.req("POST", "/services/admin/logon", auth=(user, pw), timeout=300)
+    except (OSError, http.client.HTTPException) as ex:
+        raise vf.NoVerdict("logon of %s failed: %s" % (user, ex))
+    return (r.json() or {}).get("token")
+
+
+def areq(srv, *a, **kw):
+    try:
+        return srv.req(*a, timeout=300, **kw)
+    except (OSError, http.client.HTTPException) as ex:
+        raise vf.NoVerdict("admin request failed: %s %s" % (a[:2], ex))
 
 
 def send(srv, dsn, ep, sql, token):
@@ -178,7 +194,7 @@ def send(srv, dsn, ep, sql, token):
         else:
             op = "sql" if ep == "tx" else "readrows"
             r = srv.req("POST", "/dsns/%s/tables/@transaction" % dsn, [{"operation": op, "sql": sql}], token=token, timeout=300)
-    except OSError as ex:
+    except (OSError, http.client.HTTPException) as ex:
         raise vf.NoVerdict("request to the server failed (%s): %s via %s" % (ex, sql, ep))
     j = r.json() or {}
     sess = (j.get("server") or {}).get("session")
@@ -410,6 +426,12 @@ def run():
             chosen |= set(rng.sample(sus_by_pos[key], min(6 if thorough else 3, len(sus_by_pos[key]))))
         chk.cov["extractor"]["suspects_new_at_depth2"] = len(deep)
         eps = ["sql", "tx", "rows"] if thorough else ["sql", "tx"]
+        replay = os.environ.get("VERIF_REPLAY")
+        if replay:              # bin/verif check C15 --replay replays/C15-....json : only that shape, on its endpoint
+            rr = json.load(open(replay))["replay"]["record"]
+            if skey(rr["shape"]) not in bykey:
+                raise vf.NoVerdict("replay: the shape is not in this tier's bound (depth 2 needs --tier thorough)")
+            chosen, deep, eps = {bykey[skey(rr["shape"])]["id"]}, set(), [rr["ep"]]
         cases = []
         for gid in sorted(chosen):
             g = byid[gid]
@@ -461,7 +483,7 @@ def run():
         all_keys = {(g["shape"]["kind"], g["pos"]) for g in d1}
         refused = {k for k in all_keys if k[0] in ("create_table", "create_index") and k[1] not in ("-", "as")} | {("delete", "using")}
         missing = sorted(all_keys - refused - dec_keys)
-        if missing:
+        if missing and not replay:
             raise vf.NoVerdict("no executable (deciding) case for statement positions %s" % missing)
         denied = {(r["w"]["t"], r["w"]["p"]) for r in decided if r["w"]["p"] and not r["executed"] and not r["changed"]}
         chk.cov["withheld_permissions_seen_denying"] = sorted("%s.%s" % d for d in denied)
@@ -496,6 +518,9 @@ def run():
         cand1 = [r for r in decided if r["w"]["p"] and r["w"] in _req(byid, r) and not r["executed"] and not r["changed"]]
         cand2 = [r for r in decided if not r["w"]["p"] and r["executed"] and r["checks"]
                  and all(d["p"] == "schema" or d in r["checks"] for d in _req(byid, r)) and any(d["p"] != "schema" for d in _req(byid, r))]
+        if replay:
+            chk.cov["rule"] = "replay of one shape"
+            return chk.finish()
         if not cand1 or not cand2:
             raise vf.NoVerdict("self-test: no denied / fully checked record to corrupt (driver too weak)")
         a, b = rng.choice(cand1), rng.choice(cand2)
